@@ -182,9 +182,25 @@ def test_edge(pred):
             return True
         # a flag (`drained = not self._buffer … if drained: … if drained:`): its edges assert what the test it was bound to asserted when it was evaluated
         if e.src.flag is not None and e.src.cfg is not None:
-            return any(pred(t, pol) for t, pol in _atoms(e.src.cfg.flag_defs.get(e.src.flag), e.kind))
+            return _holds(pred, e.src.cfg.flag_defs.get(e.src.flag), e.kind)
         return False
     return f
+
+
+def _holds(pred, t, pol, depth=0):
+    """Does the outcome *pol* of test *t* put control on an edge of the kind *pred* describes?  A true conjunction (false disjunction) makes all its parts true
+    (false): one matching part is enough.  A true disjunction (false conjunction) makes one of its parts true (false), we do not know which: every part must match."""
+    if t is None or depth > 4:
+        return False
+    if isinstance(t, ast.Call) and isinstance(t.func, ast.Name) and t.func.id == 'bool' and len(t.args) == 1 and not t.keywords:
+        return _holds(pred, t.args[0], pol, depth + 1)
+    if isinstance(t, ast.UnaryOp) and isinstance(t.op, ast.Not):
+        return _holds(pred, t.operand, 'F' if pol == 'T' else 'T', depth + 1)
+    if isinstance(t, ast.BoolOp):
+        all_parts = (isinstance(t.op, ast.And) and pol == 'T') or (isinstance(t.op, ast.Or) and pol == 'F')
+        rs = [_holds(pred, v, pol, depth + 1) for v in t.values]
+        return any(rs) if all_parts else all(rs)
+    return bool(pred(t, pol))
 
 
 def _atoms(t, pol, depth=0):
